@@ -57,6 +57,13 @@ def make_cfg(seed, i, typ):
                                term_p=0.0)
         if cfg.get("proj") or cfg.get("reg"):
             cfg["args"]["maxfun"] = min(cfg["args"]["maxfun"], 18)
+        if i % 6 == 4 and not cfg.get("proj"):
+            # parallel initialisation (all initial points evaluated before any is processed): the exit-index enumeration then ends
+            # the run at each of the initial points in turn, with better points evaluated after it
+            cfg["user_params"]["init.random_initial_directions"] = True
+            cfg["user_params"]["init.run_in_parallel"] = True
+            cfg["user_params"].pop("growing.ndirs_initial", None)
+            cfg["args"].pop("npt", None)
         if i % 3 == 2:
             # budget / exit enumeration over a long growing phase (its safety steps evaluate points and can end or restart the run)
             cfg = campaign.long_growing_cfg(rng, deterministic=True)
